@@ -126,9 +126,11 @@ class _Proxy:
 class Recorder:
     """Records (and, from the crash point on, drops) the file-system effects under `root`."""
 
-    def __init__(self, root, crash=None):
+    def __init__(self, root, crash=None, fault=None):
         self.root = os.path.realpath(root)
         self.crash = crash              # (k, j): k calls completed, j pending bytes written
+        self.fault = fault              # f: call number f (0-based) fails with OSError instead of being carried out
+        self.fault_done = False
         self.ops = []
         self.pending_before = []        # pending bytes of open files before op i
         self.proxies = []
@@ -161,6 +163,9 @@ class Recorder:
         if not self.frozen:
             if self.crash is not None and len(self.ops) == self.crash[0]:
                 self.freeze(self.crash[1])
+            elif self.fault is not None and not self.fault_done and len(self.ops) == self.fault:
+                self.fault_done = True
+                raise OSError(errno.EIO, "injected: %s fails" % op[0])
             else:
                 self.pending_before.append(self.pending())
                 self.ops.append(op)
@@ -300,6 +305,31 @@ class Recorder:
         return False
 
 
+def use_names(drv, sc):
+    """Storage file name of the scenario, and the name the code really uses for its temporary file
+    (learned from a recorded save: the first path other than the storage file opened for writing)."""
+    global TARGET, TMPNAME
+    TARGET = sc.get("filename") or "pyatv.conf"
+    TMPNAME = TARGET + ".tmp"
+    d = drv.fresh_dir()
+    st = drv.storage(d)
+    drv.set_devices(st, [{"protocols": {"mrp": {"identifier": "probe"}}}])
+    rec = Recorder(d)
+    with rec:
+        try:
+            drv.run(st.save())
+        except Exception:
+            pass
+    shutil.rmtree(d, ignore_errors=True)
+    for o in rec.ops:
+        if o[0].startswith("open-") and o[1] != TARGET:
+            TMPNAME = o[1]
+            break
+
+
+FILENAMES = ["pyatv.tmp", "pyatv", ".pyatv.conf", "a.b.c.json", "conf.tmp.bak", "x.tmp.tmp", "tmp", ".tmp"]
+
+
 # --------------------------------------------------------------------------- scenarios
 
 UNI = ["", "a", "åäö", "日本", "\U0001f600", "x\"y\\z", "tab\there", "\u0000", "A" * 40]
@@ -335,14 +365,14 @@ def scenarios(ctx):
                        "airplay": {"identifier": "ap-A", "credentials": "ap-secret", "password": "påss"}}}
     b = {"protocols": {"raop": {"identifier": "raop-B", "credentials": "cred-B"}}, "info": {"name": "日本"}}
     out = [
-        {"name": "first-save", "old": None, "stale_tmp": None, "new": [a]},
-        {"name": "grow", "old": [a], "stale_tmp": None, "new": [a, b]},
+        {"name": "first-save", "old": None, "stale_tmp": None, "new": [a], "faults": True},
+        {"name": "grow", "old": [a], "stale_tmp": None, "new": [a, b], "faults": True},
         {"name": "shrink", "old": [a, b], "stale_tmp": None, "new": [b]},
         {"name": "to-empty", "old": [a], "stale_tmp": None, "new": []},
         {"name": "stale-tmp", "old": [a], "stale_tmp": "{\"version\": 1, \"devi", "new": [b, a]},
         {"name": "unchanged", "old": [a], "stale_tmp": None, "new": [a]},
         # a stale temporary file longer than / as long as / shorter than what is written now
-        {"name": "stale-longer", "old": [a], "stale_rel": "longer", "new": [b]},
+        {"name": "stale-longer", "old": [a], "stale_rel": "longer", "new": [b], "faults": True},
         {"name": "stale-equal", "old": [a], "stale_rel": "equal", "new": [b]},
         {"name": "stale-shorter", "old": [a], "stale_rel": "shorter", "new": [b]},
         {"name": "stale-longer-first-save", "old": None, "stale_rel": "longer", "new": [a]},
@@ -350,6 +380,10 @@ def scenarios(ctx):
         {"name": "two-gen", "old": [b], "gen_a": [a, b, dict(a, info={"name": "x" * 120})], "new": [b]},
         {"name": "two-gen-first", "old": None, "gen_a": [a, b], "new": [{"protocols": {"dmap": {"identifier": "d"}}}]},
     ]
+    # storage file names: own suffix .tmp, no suffix, hidden, several dots, ...
+    for fn in FILENAMES:
+        out.append({"name": "filename:" + fn, "filename": fn, "old": [a], "stale_tmp": None, "new": [b, a],
+                    "limit": 48, "faults": fn in ("pyatv.tmp", "pyatv")})
     for i in range(1 if not ctx.thorough else 6):
         ga = [rand_device(rng, "a%d" % i) for _ in range(rng.randrange(2, 5))]
         out.append({"name": "two-gen-random-%d" % i, "old": None if rng.random() < 0.3 else [rand_device(rng, "o")],
@@ -363,7 +397,9 @@ def scenarios(ctx):
         stale = None
         if rng.random() < 0.3:
             stale = rng.choice(["", "{", "garbage\n", json.dumps({"version": 1, "devices": []})])
-        out.append({"name": "random-%d" % i, "old": old, "stale_tmp": stale, "new": new})
+        out.append({"name": "random-%d" % i, "old": old, "stale_tmp": stale, "new": new,
+                    "filename": rng.choice(["pyatv.conf"] + FILENAMES + ["s%d.%s" % (i, rng.choice(["tmp", "conf.tmp", "json"]))]),
+                    "faults": rng.random() < 0.5})
     return out
 
 
@@ -439,14 +475,14 @@ class Driver:
         self.run(st.load())
         return self.contents(st)
 
-    def save_with(self, sc, old_bytes, stale, crash):
+    def save_with(self, sc, old_bytes, stale, crash, fault=None):
         """Run the real save of sc['new'] on top of the old directory under the recorder."""
         d = self.restore(old_bytes, stale)
         st = self.storage(d)
         self.run(st.load())
         self.set_devices(st, sc["new"])
         want = self.contents(st)
-        rec = Recorder(d, crash)
+        rec = Recorder(d, crash, fault)
         err = None
         with rec:
             try:
@@ -468,17 +504,33 @@ def new_bytes_of(drv, sc, old_bytes):
 
 
 def expand(ctx, drv, sc, limit):
-    """Concrete scenarios (with their crash-point budget) for the relative / two-generation ones."""
+    """Concrete scenarios (with their crash-point budget) for the relative / two-generation ones,
+    and for each: the variants in which one call of the save is made to fail."""
+    use_names(drv, sc)
+    limit = min(limit, sc.get("limit", limit))
+    base = expand_base(ctx, drv, sc, limit)
+    out = list(base)
+    if sc.get("faults"):
+        for c, _lim in base[:2]:
+            old_bytes, stale = drv.prepare(c)
+            _d, rec, _f, _w, _e = drv.save_with(c, old_bytes, stale, None)
+            for f, o in enumerate(rec.ops):
+                if o[0] != "close":
+                    out.append((dict(c, name="%s:fault-at-%d-%s" % (c["name"], f, o[0]), fault=f), min(limit, 24)))
+    return out
+
+
+def expand_base(ctx, drv, sc, limit):
     if "stale_rel" in sc:
         old_bytes, _ = drv.prepare(dict(sc, stale_tmp=None))
         _rec, nb = new_bytes_of(drv, sc, old_bytes)
         n = {"longer": len(nb) + 41, "equal": len(nb), "shorter": len(nb) // 2}[sc["stale_rel"]]
         stale = ('{"version": 1, "devices": [{"info": {"name": "' + "s" * n)[:n - 5] + '"}}]}'[:5]
-        c = {k: v for k, v in sc.items() if k != "stale_rel"}
+        c = {k: v for k, v in sc.items() if k not in ("stale_rel", "faults")}
         return [(dict(c, stale_tmp=stale), limit)]
     if "gen_a" in sc:
         old_bytes, _ = drv.prepare(dict(sc, stale_tmp=None))
-        sc_a = {"name": sc["name"] + ":A", "new": sc["gen_a"]}
+        sc_a = {"name": sc["name"] + ":A", "new": sc["gen_a"], "filename": sc.get("filename")}
         rec_a, a_bytes = new_bytes_of(drv, sc_a, old_bytes)
         _rec_b, b_bytes = new_bytes_of(drv, sc, old_bytes)
         pend = list(rec_a.pending_before) + [rec_a.final_pending]
@@ -506,13 +558,13 @@ def expand(ctx, drv, sc, limit):
         # the states with the longest left-over temporary file get every crash point of the second save
         order = sorted(states.items(), key=lambda kv: -(len(kv[0][1]) if kv[0][1] is not None else -1))
         for i, ((tgt, tmp), (k, j)) in enumerate(order):
-            c = {"name": "%s:A-died-at-%d.%d" % (sc["name"], k, j), "new": sc["new"],
+            c = {"name": "%s:A-died-at-%d.%d" % (sc["name"], k, j), "new": sc["new"], "filename": sc.get("filename"),
                  "old_file": None if tgt is None else tgt.decode("utf-8"),
                  "stale_tmp": None if tmp is None else tmp.decode("utf-8")}
             out.append((c, limit if i < 2 else 16))
         ctx.count("two-generation:first-save-crash-states", len(out))
         return out
-    return [(sc, limit)]
+    return [({k: v for k, v in sc.items() if k != "faults"}, limit)]
 
 
 def is_mixture(tgt, new, stale):
@@ -616,6 +668,8 @@ def judge(loaded, load_err, expect_old, expect_new, ops, tgt=None, new_bytes=b""
 
 
 def run_scenario(ctx, drv, sc, limit, cases, only_crash=None):
+    use_names(drv, sc)
+    fault = sc.get("fault")
     old_bytes, stale = drv.prepare(sc)
     # what the previous file means
     d0 = drv.restore(old_bytes, stale)
@@ -634,8 +688,13 @@ def run_scenario(ctx, drv, sc, limit, cases, only_crash=None):
     except Exception as ex:
         ctx.tie_broken("save-raises", json.dumps({"scenario": sc["name"], "error": "%s: %s" % (type(ex).__name__, ex)}))
         return
-    d, full, files_full, expect_new, err = drv.save_with(sc, old_bytes, stale, None)
-    if err:
+    d, full, files_full, expect_new, err = drv.save_with(sc, old_bytes, stale, None, fault)
+    if fault is not None and not full.fault_done:
+        return                      # the save issues fewer calls than that
+    if fault is not None:
+        ctx.count("fault-injected")
+        ctx.count("fault:save-%s" % ("raised" if err else "returned"))
+    if err and fault is None:
         ctx.tie_broken("correspondence:recorder-unsupported-call", json.dumps({"scenario": sc["name"], "error": err, "recorded_ops": op_names(full.ops)}))
         return
     ops = full.ops
@@ -645,7 +704,7 @@ def run_scenario(ctx, drv, sc, limit, cases, only_crash=None):
     for f in sorted(os.listdir(d_ref)):
         with open(os.path.join(d_ref, f), "rb") as fh:
             ref[f] = fh.read()
-    if ref != files_full:
+    if fault is None and ref != files_full:
         ctx.tie_broken("correspondence:recorder-incomplete", json.dumps(
             {"scenario": sc["name"], "recorded_ops": op_names(ops),
              "files_with_recorder": {k: len(v) for k, v in files_full.items()},
@@ -656,7 +715,7 @@ def run_scenario(ctx, drv, sc, limit, cases, only_crash=None):
     pts = crash_points(ctx, full, limit) if only_crash is None else [tuple(only_crash)]
     obs = []
     for (k, j) in pts:
-        d, rec, files, _want, err = drv.save_with(sc, old_bytes, stale, (k, j))
+        d, rec, files, _want, err = drv.save_with(sc, old_bytes, stale, (k, j), fault)
         ctx.traces += 1
         tgt = files.get(TARGET)
         tmp = files.get(TMPNAME)
@@ -671,7 +730,7 @@ def run_scenario(ctx, drv, sc, limit, cases, only_crash=None):
         dm = describe(tmp, stale, new_bytes)
         obs.append((k, j, dt, dm))
         nontrivial = (k not in (0, len(ops))) or len(ops) == 0
-        ctx.case((sc["name"], k, j, dt[:2], dm[:2]), nontrivial=nontrivial,
+        ctx.case((sc["name"], fault, k, j, dt[:2], dm[:2]), nontrivial=nontrivial,
                  sample={"scenario": sc["name"], "ops": op_names(ops), "crash_after_calls": k, "pending_bytes_written": j,
                          "storage_file": dt[0] if dt[0] != "newprefix" else "first %d bytes of new" % dt[1],
                          "tmp_file": dm[0] if dm[0] != "newprefix" else "first %d bytes of new" % dm[1],
@@ -684,15 +743,15 @@ def run_scenario(ctx, drv, sc, limit, cases, only_crash=None):
                 "scenario": sc, "crash": [k, j], "recorded_ops": op_names(ops),
                 "storage_file_after_crash": None if tgt is None else tgt.decode("utf-8", "replace")[:300],
                 "load_error": load_err})
-        if k == len(ops) and load_err is None and loaded != expect_new and not bad:
+        if fault is None and k == len(ops) and load_err is None and loaded != expect_new and not bad:
             ctx.violation("C15:save:completed-save-not-new", "a save() that ran to completion does not load as the new settings",
                           {"scenario": sc, "crash": [k, j]})
     if None in cops:
         ctx.tie_broken("correspondence:ops-outside-model", json.dumps({"scenario": sc["name"], "recorded_ops": op_names(ops)}))
     else:
-        cases.append((sc, "(%s, %s, %s, %s)" % (
+        cases.append((sc, "(%s, %s, %s, %s, %s)" % (
             common.copt(old_bytes, common.cbytes), common.copt(stale, common.cbytes),
-            common.clist(cops),
+            common.copt(fault, str), common.clist(cops),
             common.clist(["(%d, %d, %s, %s)" % (k, j, cdesc(a), cdesc(b)) for (k, j, a, b) in obs])),
             op_names(ops)))
 
@@ -703,7 +762,8 @@ def run(ctx):
         ctx.coqchk()
     limit = 700 if not ctx.thorough else 100000
     ctx.rule = ("per scenario (old storage file | none, optional stale temporary file - also longer than / equal to / shorter than "
-                "the new content, and every directory an interrupted earlier save of a longer generation leaves behind - , new settings): every crash point "
+                "the new content, and every directory an interrupted earlier save of a longer generation leaves behind - , new settings, "
+                "storage file names with suffix .tmp / no suffix / several dots, optionally ONE call of the save made to fail with OSError): every crash point "
                 "(k recorded file-system calls completed, j bytes of the pending buffer written; all j up to %d per buffer, "
                 "sampled above) of the real FileStorage.save(); non-trivial = crash strictly inside the save; "
                 "distinct by (scenario, k, j, resulting directory)" % limit)
@@ -720,7 +780,7 @@ def run(ctx):
     for i, (sc, term, _names) in enumerate(cases):
         txt = ("From Coq Require Import List NArith. Import ListNotations.\n"
                "From PV Require Import Common.Cases C15.Model.\n"
-               "Definition cases : list (option bytes * option bytes * list op * list (nat * nat * desc * desc)) := [\n%s\n].\n"
+               "Definition cases : list (option bytes * option bytes * option nat * list op * list (nat * nat * desc * desc)) := [\n%s\n].\n"
                "Eval vm_compute in (bad_indices check_case cases).\n" % term)
         items.append(("cases_%03d" % i, txt))
     res = common.coq_run_many(items, ctx.pid)
